@@ -656,6 +656,8 @@ class Daemon(object):
         if objectId:
             if not isinstance(objectId, str):
                 raise TypeError("objectId must be a string or None")
+            if objectId == core.DAEMON_NAME:
+                raise errors.DaemonError("that id is reserved for the daemon itself")
         else:
             objectId = "obj_" + uuid.uuid4().hex  # generate a new objectId
         if inspect.isclass(obj_or_class):
